@@ -142,7 +142,7 @@ def _make():
                 lid = "" if eng.pick(2, "left_id_empty") == 0 else symx.SymAtom("left_id", "id")
                 rid = "" if eng.pick(2, "right_id_empty") == 0 else symx.SymAtom("right_id", "id")
                 auth.update({"psk": psk, "left_id": lid, "right_id": rid})
-        combo = {"local": lt, "remote": rt, "peer": pt, "auth": at, "ifaces": n_if}
+        combo = {"local": lt, "remote": rt, "peer": pt, "auth": at, "ifaces": n_if, "left_id_empty": lid == "", "right_id_empty": rid == ""}
         valid = "bogus" not in (lt, rt, pt, at)
         try:
             tun = VMTunnel("vpn1", n1, n2, local1, remote1, peer1, auth)
@@ -349,7 +349,9 @@ def replay(data: dict[str, Any]) -> tuple[bool, str]:
     local1 = {"type": combo["local"], "nic": "lan_nic", "lnet": "172.16.0.0", "lmask": "255.255.0.0", "rnet": "172.17.0.0", "rmask": "255.255.255.0"}
     remote1 = {"type": combo["remote"], "nic": "lan_nic", "modeconfig_ip": "172.30.0.1"}
     peer1 = {"type": combo["peer"], "nic": "internet_nic"}
-    auth = None if combo["auth"] is None else {"type": combo["auth"], "psk": "secret", "left_id": "arnold@left", "right_id": ""}
+    lid = "" if combo.get("left_id_empty") else "arnold@left"
+    rid = "" if combo.get("right_id_empty", True) else "server@right"
+    auth = None if combo["auth"] is None else {"type": combo["auth"], "psk": "secret", "left_id": lid, "right_id": rid}
     valid = "bogus" not in (combo["local"], combo["remote"], combo["peer"], combo["auth"])
     try:
         tun = VMTunnel("vpn1", nodes[0], nodes[1], local1, remote1, peer1, auth)
@@ -379,8 +381,12 @@ def replay(data: dict[str, Any]) -> tuple[bool, str]:
     if combo["auth"] == "psk":
         if (L.get("vpnconn_psk_own_id"), L.get("vpnconn_psk_foreign_id")) != (R.get("vpnconn_psk_foreign_id"), R.get("vpnconn_psk_own_id")):
             problems.append("psk ids not swapped")
-        if L.get("vpnconn_psk_own_id") != "arnold@left" or L.get("vpnconn_psk_own_id_type") != "CUSTOM" or R.get("vpnconn_psk_own_id_type") != "IP":
-            problems.append("psk id / type")
+        tl, tr = ("IP" if lid == "" else "CUSTOM"), ("IP" if rid == "" else "CUSTOM")
+        want = {"L": (lid, tl, rid, tr), "R": (rid, tr, lid, tl)}
+        for side, prm in (("L", L), ("R", R)):
+            got = (prm.get("vpnconn_psk_own_id"), prm.get("vpnconn_psk_own_id_type"), prm.get("vpnconn_psk_foreign_id"), prm.get("vpnconn_psk_foreign_id_type"))
+            if got != want[side]:
+                problems.append(f"psk id / type on {side}: {got} expected {want[side]}")
     want_key = {None: "NONE", "none": "NONE", "pubkey": "PUBLIC", "psk": "PSK"}[combo["auth"]]
     if L.get("vpnconn_key_type") != want_key or R.get("vpnconn_key_type") != want_key:
         problems.append("key type")
